@@ -1,9 +1,10 @@
 ----------------------------- MODULE Gen_Checks -----------------------------
 (* Table generation for C03 (behaviours of length one): every call of the chosen operand-lattice
-   family (IOEnv.FAMILY, or "all") is written as one ndjson row to IOEnv.OUT.  Rows carry the call
+   families is written as one ndjson row to <IOEnv.OUT>.<family>.ndjson (one file per family: TLC sorts a set
+   before enumerating it, and sorting seven small sets is much cheaper than sorting their union).  Rows carry the call
    only (kind + operands); the verdict and the counters are predicted by Trace_Checks when the log
    recorded from the real macros is validated, so expected results are never stored outside TLA+. *)
 EXTENDS ChecksLattice, Json, IOUtils, SequencesExt
-ASSUME ndJsonSerialize(IOEnv.OUT, SetToSeq(RowsOf(IOEnv.FAMILY)))
+ASSUME \A f \in Families : ndJsonSerialize(IOEnv.OUT \o "." \o f \o ".ndjson", SetToSeq(Family(f)))
 GSpec == Init /\ [][UNCHANGED vars]_vars
 =============================================================================
